@@ -61,6 +61,43 @@ class LazyExecutor:
             f.run()
 
 
+class TimedExecutor:
+    """in-process pool handing out real concurrent.futures.Future objects; a helper thread completes the submitted tasks a
+    moment later, in submission order or (environment dependent) in reverse - so that both `f.result()` and
+    `as_completed(...)` see a legal but different completion order"""
+    _max_workers = 3
+
+    def __init__(self, lifo):
+        import threading
+        self.lifo, self.pending, self.lock = lifo, [], threading.Lock()
+        self.thread = None
+
+    def submit(self, fn, *args, **kwargs):
+        import threading
+        from concurrent.futures import Future
+        f = Future()
+        with self.lock:
+            self.pending.append((f, fn, args, kwargs))
+            if self.thread is None or not self.thread.is_alive():
+                self.thread = threading.Thread(target=self._drain, daemon=True)
+                self.thread.start()
+        return f
+
+    def _drain(self):
+        import time
+        while True:
+            time.sleep(0.03)        # let the caller finish submitting its batch
+            with self.lock:
+                pend, self.pending = self.pending, []
+            if not pend:
+                return
+            for f, fn, a, k in (reversed(pend) if self.lifo else pend):
+                try:
+                    f.set_result(fn(*a, **k))
+                except BaseException as e:      # noqa
+                    f.set_exception(e)
+
+
 def digest(x):
     return hashlib.sha1(repr(x).encode()).hexdigest()[:16]
 
@@ -150,6 +187,10 @@ def run_call(ct, call):
     net = make_net(netk)
     inputs, output, size = net
     if api == "RandomGreedyOptimizer":
+        if kw.get("pool") == "timed":
+            # several batches on an in-process pool whose completion order depends on the environment
+            return tuple(map(tuple, ct.RandomGreedyOptimizer(max_repeats=12, seed=seed, parallel=TimedExecutor(ENV["lifo"]))(
+                inputs, output, size)))
         return tuple(map(tuple, ct.RandomGreedyOptimizer(max_repeats=4, seed=seed, parallel=False)(inputs, output, size)))
     if api == "optimize_random_greedy_track_flops":
         p, f = path_basic.optimize_random_greedy_track_flops(inputs, output, size, ntrials=3, seed=seed)
